@@ -68,6 +68,66 @@ func gen(t *rapid.T) Case {
 		}
 	}
 	c.Place = rapid.SampledFrom([]string{"across", "across", "inside", "throughhole", "outside_near", "outside_far", "xmonotone"}).Draw(t, "place")
+	if rapid.IntRange(0, 9).Draw(t, "raster") == 4 {
+		// the outline of a set of raster cells (a 'skyline' of 3-7 columns of drawn heights, one vertex at EVERY grid step,
+		// so that reflex corners sit between exactly collinear vertices), and lines all of whose vertices are inside it but
+		// which pass from one column to another over the top of a lower one
+		c.Place = "raster_notch"
+		nc := rapid.IntRange(3, 7).Draw(t, "rastercols")
+		hts := make([]int, nc)
+		for i := range hts {
+			hts[i] = rapid.IntRange(1, 5).Draw(t, "rasterh")
+		}
+		s := rapid.SampledFrom([]float64{1, 0.5, 8}).Draw(t, "rastercell")
+		ox, oy := float64(rapid.IntRange(-3, 3).Draw(t, "rasterox")), float64(rapid.IntRange(-3, 3).Draw(t, "rasteroy"))
+		var ring []vkit.P2
+		add := func(x, y int) { ring = append(ring, vkit.MkP(ox+s*float64(x), oy+s*float64(y))) }
+		for x := 0; x <= nc; x++ { // bottom, left to right
+			add(x, 0)
+		}
+		for y := 1; y <= hts[nc-1]; y++ { // up the right side
+			add(nc, y)
+		}
+		for i := nc - 1; i >= 0; i-- { // across the top, right to left
+			add(i, hts[i])
+			if i > 0 {
+				for y := hts[i]; y != hts[i-1]; {
+					if hts[i-1] > y {
+						y++
+					} else {
+						y--
+					}
+					add(i, y)
+				}
+			}
+		}
+		for y := hts[0] - 1; y >= 1; y-- { // down the left side
+			add(0, y)
+		}
+		ring = append(ring, ring[0])
+		if rapid.Bool().Draw(t, "rasterrev") {
+			for i, j := 0, len(ring)-1; i < j; i, j = i+1, j-1 {
+				ring[i], ring[j] = ring[j], ring[i]
+			}
+		}
+		c.P = vkit.GJ{T: "Polygon", Rings: [][]vkit.P2{ring}}
+		if rapid.Bool().Draw(t, "rasterasmulti") {
+			c.P = vkit.GJ{T: "MultiPolygon", Polys: [][][]vkit.P2{{ring}}}
+		}
+		c.HoleFirst = false
+		nlr := rapid.IntRange(1, 2).Draw(t, "rasternl")
+		for m := 0; m < nlr; m++ {
+			nv := rapid.IntRange(2, 4).Draw(t, "rasternv")
+			var l []vkit.P2
+			for k := 0; k < nv; k++ {
+				col := rapid.IntRange(0, nc-1).Draw(t, "rastercol")
+				l = append(l, vkit.MkP(ox+s*(float64(col)+rapid.Float64Range(0.1, 0.9).Draw(t, "rasterfx")), oy+s*(float64(hts[col])*rapid.Float64Range(0.05, 0.95).Draw(t, "rasterfy"))))
+			}
+			c.Lines = append(c.Lines, l)
+		}
+		c.AsMulti = nlr > 1 || rapid.Bool().Draw(t, "rasterasml")
+		return c
+	}
 	if rapid.IntRange(0, 39).Draw(t, "blockexit") == 9 {
 		// a long x-monotone line that wanders over P for exactly K segments and leaves P's bounding box for good at
 		// vertex K, K next to a power of two (the sizes of blocks that code processes lines in)
